@@ -58,6 +58,7 @@ def check(ctx):
     ctx.attempt(_depth_table)
     ctx.attempt(_subdivide)
     ctx.attempt(_pass_back_linear)
+    ctx.attempt(pass_back_makes_progress)
     ctx.attempt(forward.check_all, module_suffixes=('tract.aliquot_parse', 'tract.tract', 'tract.tract_parse'))
     from .c07 import _joiners                 # a chain that is not joined ('N/2 of the\nNE/4') parses as overlapping pieces
     ctx.attempt(_joiners)
@@ -66,6 +67,8 @@ def check(ctx):
     ctx.attempt(lockdown, ctx.repo.func('Tract.parse'), only=('qq_depth', 'qq_depth_min', 'qq_depth_max', 'break_halves'))
     ctx.attempt(qq_depth_precedence, ctx.repo.func('Tract.parse'))
     ctx.attempt(keyword_wins_depth)
+    from .c13 import _lock_tract              # the depth keywords reach TractParser as given (qq_depth folded into min / max)
+    ctx.attempt(_lock_tract)
     ctx.attempt(_chain_language)
     ctx.attempt(common.config_words, plss=('qq_depth', 'qq_depth_min', 'qq_depth_max', 'break_halves'), tract=('qq_depth', 'qq_depth_min', 'qq_depth_max', 'break_halves'))
 
@@ -514,6 +517,47 @@ def _subdivide(ctx):
     t = ' '.join(norm(s) for s in walk_local(fr.node) if isinstance(s, ast.stmt))
     ctx.shape("f'{deep}{shallow}'" in t.replace('"', "'") and 'for shallow in second_deepest' in t, 'ORDER',
               'rebuild: every deeper piece is prefixed to every shallower piece (cartesian)')
+
+
+def pass_back_makes_progress(ctx, rule='FIXPOINT'):
+    """pass_back_halves rewrites a pair (quarter at [i], half at [i+1]) and is
+    called again until nothing changes.  The rewritten pair must not satisfy
+    the trigger again: the one-letter component (a half) has to be written to
+    [i] and the two-letter one (a quarter) to [i+1].  Written the other way
+    round, every call re-creates a (quarter, half) pair: the fix-point loop of
+    standardize_aliquot_components flips between two states for ever."""
+    fi = ctx.repo.func('aliquot_parse:pass_back_halves')
+    construct = 'pass_back_halves: the rewritten pair does not trigger the rewrite again'
+    kinds = {}
+    for a in walk_local(fi.node):
+        if isinstance(a, ast.Assign) and isinstance(a.targets[0], ast.Name):
+            v = a.value
+            if isinstance(v, ast.JoinedStr) and len([x for x in v.values if isinstance(x, ast.FormattedValue)]) == 2:
+                kinds.setdefault(a.targets[0].id, set()).add('quarter')
+            elif isinstance(v, ast.Name):
+                kinds.setdefault(a.targets[0].id, set()).add('letter')
+    stores = {}
+    for a in walk_local(fi.node):
+        if isinstance(a, ast.Assign) and isinstance(a.targets[0], ast.Subscript) and isinstance(a.value, ast.Name):
+            idx = norm(a.targets[0].slice).replace(' ', '')
+            stores[idx] = (a.value.id, a)
+    trig = [n for n in walk_local(fi.node) if isinstance(n, ast.If) and 'QQ_HALVES' in norm(n.test) and 'QQ_QUARTERS' in norm(n.test)]
+    if not ({'i', 'i+1'} <= set(stores)) or not trig:
+        ctx.undecided(rule, construct, 'write-back / trigger not recognised')
+        return
+    a_i, a_i1 = stores['i'][0], stores['i+1'][0]
+    k_i, k_i1 = kinds.get(a_i, set()), kinds.get(a_i1, set())
+    # which position does the trigger want to be the quarter?  (aq1 = [i], aq2 = [i+1])
+    t = norm(trig[0].test)
+    quarter_first = 'aq1 in QQ_QUARTERS' in t and 'aq2 in QQ_HALVES' in t
+    if not quarter_first:
+        ctx.undecided(rule, construct, f"trigger `{t[:60]}` not of the expected form")
+        return
+    ctx.tri(k_i == {'letter'} and k_i1 == {'quarter'}, k_i == {'quarter'} and k_i1 == {'letter'}, rule, construct,
+            detail_bad=f"`{norm(stores['i'][1])}` / `{norm(stores['i+1'][1])}` put the two-letter component back in front of the "
+                       f"one-letter one: the pair satisfies `{t[:60]}` again, so each call of pass_back_halves undoes the previous "
+                       f"one and `while aliquot_components != aliquot_copy` never ends ('SE/4W/2' hangs the parse)",
+            key=f"{rule}|pass_back_halves|no-progress", where=common.loc(fi, stores['i'][1]))
 
 
 def _pass_back_linear(ctx):
